@@ -155,7 +155,7 @@ fn responder(v6: bool, rng: &mut Rng) -> IpAddr {
     crate::wire_gen::responder(v6, rng)
 }
 
-fn sock_env(rng: &mut Rng, v6: bool, dst: IpAddr) -> SockEnv {
+pub fn sock_env(rng: &mut Rng, v6: bool, dst: IpAddr) -> SockEnv {
     match rng.below(16) {
         0..=6 => SockEnv::NotWritable,
         7 => SockEnv::WritableFails,
@@ -169,7 +169,7 @@ fn sock_env(rng: &mut Rng, v6: bool, dst: IpAddr) -> SockEnv {
 }
 
 /// a genuine ICMP error for one of the probes sent through the channel
-fn genuine(rng: &mut Rng, cfg: &CCfg, sent: &[(Probe, Sent)]) -> Option<Dgram> {
+pub fn genuine(rng: &mut Rng, cfg: &CCfg, sent: &[(Probe, Sent)]) -> Option<Dgram> {
     let w = cfg.wire();
     let (p, s) = rng.pick(sent);
     let d = wire_datagram(&w, p, s, rng)?;
